@@ -117,6 +117,9 @@ func (s *Script) define(prefix, sort, body string) string {
 	if len(body) < 24 && !strings.Contains(body, " ") {
 		return body
 	}
+	if strings.Contains(body, "?") {
+		return body // mentions a quantifier-bound variable: cannot be named outside the quantifier
+	}
 	n := s.fresh(prefix)
 	s.cmds = append(s.cmds, Cmd{kind: cDef, name: n, text: fmt.Sprintf("(define-fun %s () %s %s)", n, sort, body)})
 	return n
@@ -343,7 +346,8 @@ func (s *Script) render(ob *Obligation, extra []string, getValues []string) stri
 			symbolsOf(c.text, need)
 		case cOblig:
 			// earlier obligations are assumed (checked separately)
-			if !c.ob.Cover {
+			// (vacuity queries do not need them: proved obligations are consequences of the rest)
+			if !c.ob.Cover && !ob.Cover {
 				include[i] = true
 				symbolsOf(c.text, need)
 			}
